@@ -89,6 +89,9 @@ def _ctx(scn, idx):
                 elif x['ft'] == 'ERROR':
                     closed_by = 'own_error'
         sig['closed_by'] = closed_by or 'both_complete'
+        # was the application action that produced this frame taken from inside an on_next callback (x=1) or by the driver itself?
+        acts = [x for x in ev[:idx - 1] if x['ep'] == e['ep'] and x['ev'].startswith('app_')]
+        sig['in_callback'] = bool(acts and acts[-1].get('x') == 1)
     if e.get('ev') == 'quiesce':
         sig['open_kinds'] = sorted(set(sid_kind.get((e['ep'], s), '?') for s in e.get('streams', [])))
         # how each still-registered stream came to be considered terminated: a CANCEL or ERROR was seen on it, or it just completed
